@@ -86,6 +86,15 @@ SetAt(st, p, i, v) ==
   ELSE IF Free(st) = {} THEN {}
   ELSE LET f == Fresh(st) IN {Ok(ReplaceKid(WithObj(st, f, st.nm[st.kids[p][i]], v, 1), p, i, f))}
 
+(* children[i] = c with an element object c: refused unless c carries the name of the child at that position; *)
+(* a free object of that name (and of the parent's level and version) replaces that child in place             *)
+SetAtObj(st, p, i, c) ==
+  IF i > Len(st.kids[p]) \/ c \notin Alloc(st) THEN {Rej(st)}
+  ELSE IF st.nm[st.kids[p][i]] = NoName THEN {}            \* (position held by an unknown child: not modelled)
+  ELSE IF st.nm[c] # st.nm[st.kids[p][i]] THEN {Rej(st)}
+  ELSE IF c \in st.held THEN (IF st.lv[c] = 1 THEN {Ok(ReplaceKid(st, p, i, c))} ELSE {Rej(st)})
+  ELSE {}                                                  \* (an object attached somewhere: SetObj's subject)
+
 AddNew(st, p, n) ==            \* add_field / add_segment / ... : a new empty child is appended
   IF n \notin Names THEN {Rej(st)}
   ELSE IF Free(st) = {} THEN {}
@@ -163,6 +172,7 @@ Succ(st, o) ==
     [] o.op = "SetIdx"   -> SetRep(st, o.p, o.n, o.i, o.v)
     [] o.op = "SetObj"   -> SetObj(st, o.p, o.n, o.c)
     [] o.op = "SetAt"    -> SetAt(st, o.p, o.i, o.v)
+    [] o.op = "SetAtObj" -> SetAtObj(st, o.p, o.i, o.c)
     [] o.op = "AddNew"   -> AddNew(st, o.p, o.n)
     [] o.op = "AddObj"   -> Attach(st, o.p, o.c)
     [] o.op = "Reparent" -> Attach(st, o.p, o.c)
